@@ -20,10 +20,10 @@ here and tied to the code by the C02 correspondence run.  Signature verification
 -/
 namespace CTV.Model.ChainCheck
 
-/-- The first CT-poison extension of a certificate, as `IsPrecertificate` sees it. -/
-inductive Poison where
-  | absent
-  | present (critical valueIsNull : Bool)
+/-- One CT-poison extension: is it critical, is its value `05 00`. -/
+structure PoisonExt where
+  critical : Bool
+  valueIsNull : Bool
 deriving DecidableEq, Repr, Inhabited
 
 /-- The fields of `x509.Certificate` read by the modelled code.  `id` stands for `Raw`
@@ -44,7 +44,8 @@ structure Cert where
   notAfter : Int
   ekus : List Nat
   extIds : List Nat
-  poison : Poison
+  /-- every extension with the CT-poison OID, in certificate order (the parser does not refuse duplicates) -/
+  poison : List PoisonExt
 deriving DecidableEq, Repr, Inhabited
 
 /-- `(*Certificate).Equal`: equality of `Raw`. -/
@@ -63,10 +64,8 @@ def poolContains (pool : List Cert) (c : Cert) : Bool := pool.any (·.equal c)
 
 /-- `CertPool.findPotentialParents`: AKI → SKI matches first (in pool order), names otherwise. -/
 def findPotentialParents (pool : List Cert) (c : Cert) : List Cert :=
-  let byKeyId := match c.aki with
-    | some k => pool.filter (fun p => p.ski == some k)
-    | none => []
-  if byKeyId.isEmpty then pool.filter (fun p => p.subject == c.issuer) else byKeyId
+  let byKeyId := if Gen.fppUseKeyId c.aki.isSome then pool.filter (fun p => p.ski == c.aki) else []
+  if Gen.fppFallBackToNames byKeyId.isEmpty then pool.filter (fun p => p.subject == c.issuer) else byKeyId
 
 /-! ### CheckSignatureFrom, isValid -/
 
@@ -199,26 +198,34 @@ inductive Reject where
   | notAfterStart | notAfterLimit | acceptOnlyCA | expired | unexpired | extId | eku
   | verify (e : VErr) | noChains | notEquivalent
   | poison | kind
+  | unknownCheck   -- the regenerated list of checks names one the model does not have
 deriving DecidableEq, Repr
 
 def chainsEquivalent (inChain verified : List Cert) : Bool :=
   if Gen.chainsLenMismatch inChain.length verified.length then false
   else (inChain.zip verified).all fun (a, b) => a.equal b
 
-/-- One named leaf check of `ValidateChain`. -/
-def leafCheck (o : Opts) (c : Cert) : String → Option Reject
-  | "notAfterStart" => if Gen.naStartFails c.notAfter o.notAfterStart then some .notAfterStart else none
-  | "notAfterLimit" => if Gen.naLimitFails c.notAfter o.notAfterLimit then some .notAfterLimit else none
-  | "acceptOnlyCA" => if Gen.acceptOnlyCAFails o.acceptOnlyCA c.isCA then some .acceptOnlyCA else none
-  | "rejectExpired" => if Gen.rejectExpiredFails o.rejectExpired (Gen.expired o.now c.notAfter) then some .expired else none
-  | "rejectUnexpired" => if Gen.rejectUnexpiredFails o.rejectUnexpired (Gen.expired o.now c.notAfter) then some .unexpired else none
-  | "rejectExtIds" => if !o.rejectExtIds.isEmpty && c.extIds.any (o.rejectExtIds.contains ·) then some .extId else none
-  | "extKeyUsages" => if !o.extKeyUsages.isEmpty && !c.ekus.any (o.extKeyUsages.contains ·) then some .eku else none
+/-- One named leaf check of `ValidateChain`: `some none` = passes, `some (some r)` = rejects; `none` = a check the
+model does not know (the regenerated order then names something new: everything is refused, never ignored). -/
+def leafCheck (o : Opts) (c : Cert) : String → Option (Option Reject)
+  | "parse" => some none    -- not leaf filters: handled around them
+  | "verify" => some none
+  | "chainsEquivalent" => some none
+  | "notAfterStart" => some <| if Gen.naStartFails c.notAfter o.notAfterStart then some .notAfterStart else none
+  | "notAfterLimit" => some <| if Gen.naLimitFails c.notAfter o.notAfterLimit then some .notAfterLimit else none
+  | "acceptOnlyCA" => some <| if Gen.acceptOnlyCAFails o.acceptOnlyCA c.isCA then some .acceptOnlyCA else none
+  | "rejectExpired" => some <| if Gen.rejectExpiredFails o.rejectExpired (Gen.expired o.now c.notAfter) then some .expired else none
+  | "rejectUnexpired" => some <| if Gen.rejectUnexpiredFails o.rejectUnexpired (Gen.expired o.now c.notAfter) then some .unexpired else none
+  | "rejectExtIds" => some <| if !o.rejectExtIds.isEmpty && c.extIds.any (o.rejectExtIds.contains ·) then some .extId else none
+  | "extKeyUsages" => some <| if !o.extKeyUsages.isEmpty && !c.ekus.any (o.extKeyUsages.contains ·) then some .eku else none
   | _ => none
 
 /-- The leaf checks in the order `ValidateChain` applies them (regenerated). -/
 def leafFilters (o : Opts) (c : Cert) : Option Reject :=
-  Gen.validateChainOrder.findSome? (leafCheck o c)
+  Gen.validateChainOrder.findSome? fun name =>
+    match leafCheck o c name with
+    | some r => r
+    | none => some .unknownCheck
 
 def parseAll : List (Option Cert) → Option (List Cert)
   | [] => some []
@@ -242,11 +249,18 @@ def validateChain (roots : List Cert) (sigOK : SigOracle) (o : Opts) (raw : List
           | some p => .ok p
           | none => .error .notEquivalent
 
+/-- The range loop of `IsPrecertificate` over the extensions with the poison OID; `found` is the loop's variable.
+Its shape is regenerated (`Gen.poisonLoop*`): a malformed poison extension is an error wherever it stands; a
+well-formed one either ends the loop (`StopsAtFirst`) or is recorded and the loop goes on. -/
+def poisonLoop : Bool → List PoisonExt → Except Unit Bool
+  | found, [] => .ok (if Gen.poisonLoopFinalReturn = "false" then false else found)
+  | found, p :: rest =>
+    if Gen.poisonInvalid p.critical p.valueIsNull then .error ()
+    else if Gen.poisonLoopStopsAtFirst then .ok true
+    else poisonLoop (if Gen.poisonLoopMarks = "" then found else true) rest
+
 /-- `IsPrecertificate` -/
-def isPrecertificate (c : Cert) : Except Unit Bool :=
-  match c.poison with
-  | .absent => .ok false
-  | .present cr nl => if Gen.poisonInvalid cr nl then .error () else .ok true
+def isPrecertificate (c : Cert) : Except Unit Bool := poisonLoop false c.poison
 
 /-- `verifyAddChain(li, req, expectingPrecert)` -/
 def verifyAddChain (roots : List Cert) (sigOK : SigOracle) (o : Opts) (raw : List (Option Cert)) (expectingPrecert : Bool) :
